@@ -259,6 +259,14 @@ def cacheinfo_fields(repo):
     node = m.consts.get('CacheInfo')
     if isinstance(node, ast.Call) and len(node.args) >= 2 and isinstance(node.args[1], (ast.List, ast.Tuple)):
         return [e.value for e in node.args[1].elts if isinstance(e, ast.Constant)]
+    if isinstance(node, ast.Call) and len(node.args) >= 2 and isinstance(node.args[1], ast.Constant) and isinstance(node.args[1].value, str):
+        return node.args[1].value.replace(',', ' ').split()           # namedtuple('CacheInfo', 'hit miss load maxsize size')
+    # class CacheInfo(NamedTuple): hit: int ...   (the annotated names, in order, are the tuple layout)
+    for ci in m.classes_by_name.get('CacheInfo', []):
+        if any(b in ('NamedTuple', 'typing.NamedTuple') for b in ci.direct_base_names()):
+            fields = [st.target.id for st in ci.node.body if isinstance(st, ast.AnnAssign) and isinstance(st.target, ast.Name)]
+            if fields:
+                return fields
     raise AnalysisError('anchor vanished: CacheInfo namedtuple in klepto/tools.py')
 
 
